@@ -17,7 +17,8 @@ THEOREMS = ["Pfl.FST.relOutputs_iff",
             "Pfl.FST.union_rel",
             "Pfl.FST.concatenate_rel",
             "Pfl.FST.kleeneStar_rel",
-            "Pfl.ENFA.member_iff"]
+            "Pfl.ENFA.member_iff",
+            "Pfl.ENFA.toFST_rel"]
 NAMES = ["q0", "q1", "q2", "q3", "a", "a0", "star", "star0"]
 
 
@@ -175,6 +176,14 @@ def run_case(case, drv):
             res.violation("to_fst", "raised %s" % T)
         else:
             st, t = outcome(lambda: extract(T))
+            if st == "ok":
+                # structural tie with the model of to_fst (states compared through their codes)
+                mt = drv.call("fst.ofFA", A=A, symNames=["a", "b", "c"])
+                res.corr += 1
+                tc = {"starts": [str(scodes.code(q)) for q in t["starts"]], "finals": [str(scodes.code(q)) for q in t["finals"]],
+                      "delta": [[str(scodes.code(q)), a, str(scodes.code(r)), o] for q, a, r, o in t["delta"]]}
+                if canon(tc) != canon(mt):
+                    res.corr_break("to_fst", "structure differs from the model", detail={"impl": canon(tc), "model": canon(mt)})
             ws = words
             if st == "ok" and all(isinstance(s, str) for s in t["states"]):
                 rr = drv.call("fst.rel", T=t, words=ws)
